@@ -660,7 +660,6 @@ func ruleC05Dispatch(p *Prog, r *Res) {
 	r.Floor(rule, 3, n)
 }
 
-
 func ruleC05EveryDatagram(p *Prog, r *Res) {
 	const rule = "C05-f every-packet-recorded"
 	r.Rule(rule + ": no path through the UDP assembler or the stream's packet hooks skips the recording of the packet")
